@@ -208,6 +208,8 @@ def run(chk, repo):
                 return None
             return all(vals) if unparse(e.func) == "all" else any(vals)
         return None
+    from ..equiv import desugar_conditionals as _dsg
+    ib = _dsg(ib)           # x = A if c else B  read as  if c: x = A  else: x = B
     lv = _leaves(ib)
     scenarios = [(0, ()), (1, (True,)), (1, (False,)), (2, (True, True)), (2, (False, False)), (2, (True, False)),
                  (2, (False, True)), (3, (True, True, True)), (3, (False, False, False)), (3, (True, False, True))]
@@ -231,9 +233,37 @@ def run(chk, repo):
             okall = False
             problems.append("%d leaves for %d argument(s) %s" % (len(sel), n_, kinds))
             continue
-        acts = [unparse(s_) for s_ in sel[0].stmts]
+        stmts_ = list(sel[0].stmts)
+        if n_ == 1 and stmts_ and isinstance(stmts_[0], ast.Assign) and len(stmts_[0].targets) == 1 \
+                and isinstance(stmts_[0].targets[0], ast.Tuple) and len(stmts_[0].targets[0].elts) == 1 \
+                and isinstance(stmts_[0].targets[0].elts[0], ast.Name) and unparse(stmts_[0].value) == va:
+            # ``x, = dargs`` with exactly one argument: x is dargs[0]
+            one_ = stmts_[0].targets[0].elts[0].id
+
+            class _One(ast.NodeTransformer):
+                def visit_Name(self, n):
+                    if n.id == one_ and isinstance(n.ctx, ast.Load):
+                        return ast.parse("%s[0]" % va, mode="eval").body
+                    return n
+            stmts_ = [_One().visit(ast.parse(unparse(s_)).body[0]) for s_ in stmts_[1:]]
+            if len(stmts_) == 1 and isinstance(stmts_[0], ast.If):
+                # the test on the argument is decided by the scenario
+                v_ = truth(stmts_[0].test, n_, kinds)
+                if v_ is not None:
+                    stmts_ = stmts_[0].body if v_ else stmts_[0].orelse
+        # the temporary of a desugared conditional expression: T = E ; X = T  is  X = E
+        k_ = 0
+        while k_ + 1 < len(stmts_):
+            a_, b_ = stmts_[k_], stmts_[k_ + 1]
+            if isinstance(a_, ast.Assign) and len(a_.targets) == 1 and isinstance(a_.targets[0], ast.Name) \
+                    and a_.targets[0].id.startswith("cond__") and isinstance(b_, ast.Assign) and isinstance(b_.value, ast.Name) \
+                    and b_.value.id == a_.targets[0].id:
+                stmts_[k_:k_ + 2] = [ast.Assign(targets=b_.targets, value=a_.value, lineno=getattr(b_, "lineno", 0))]
+                continue
+            k_ += 1
+        acts = [unparse(s_) for s_ in stmts_]
         if n_ == 0 or (n_ >= 2 and len(set(kinds)) == 2):
-            good = len(sel[0].stmts) == 1 and isinstance(sel[0].stmts[0], ast.Raise) and "TypeError" in acts[0]
+            good = len(stmts_) == 1 and isinstance(stmts_[0], ast.Raise) and "TypeError" in acts[0]
             exp = "raise TypeError"
         elif n_ == 1:
             exp = "self._data = iter(%s[0])" % va if kinds[0] else "self._data = it.repeat(%s[0])" % va
